@@ -177,6 +177,14 @@ def case(args):
                 v1 = evaluate(cpu, E, mapper, m1, states, regs)
             except Exception as x:
                 v1 = [("rebuild raised", type(x).__name__)]
+            # (c) the instruction objects decoded first, executed once more (their first execution is history too)
+            try:
+                m2 = mapper()
+                for i in B0:
+                    i(m2)
+                v2 = evaluate(cpu, E, mapper, m2, states, regs)
+            except Exception as x:
+                v2 = [("re-execution raised", type(x).__name__)]
             res["ok"] = True
             first_self = None
             if g1 != g0:
@@ -187,6 +195,8 @@ def case(args):
                 what = "old-map"
             elif v1 != v0:
                 what = "rebuilt-map"
+            elif v2 != v0:
+                what = "re-executed-instructions"
             if what:
                 cause = culprit or first_self or ("?", [])
                 switches = [c for c in cause[1] if c.startswith("internals.")]
